@@ -30,9 +30,14 @@ func (f failingListFS) ReadDir(p string) ([]os.FileInfo, error) {
 // the error itself must be in Errors() the moment Wait() returns. The window between "the loop is
 // killed" and "the error is recorded" is only a few instructions wide, hence the volume.
 func c08ErrorStorm(o *Out, rng *RNG, tier string) {
-	n := 4000
+	// n mixed walks, then n2 walks of the one shape in which the window is widest on the code as it
+	// is: the listing fails in a PRODUCER (nobody waits for producers), few consumers, two
+	// processors (measured on the change "Kill before the error is recorded": 0 of 4 000 walks at
+	// GOMAXPROCS 1, 1-7 of 4 000 at GOMAXPROCS 2 with one or two consumers, 18 microseconds a walk;
+	// 4 000 mixed walks alone missed that change in 3 of 6 checks)
+	n, n2 := 4000, 40000
 	if tier == "thorough" {
-		n = 60000
+		n, n2 = 60000, 400000
 	}
 	base, _ := memfs.NewFilespace()
 	base.WriteFile("a/x", []byte("1"), 0o644)
@@ -41,14 +46,26 @@ func c08ErrorStorm(o *Out, rng *RNG, tier string) {
 	old := runtime.GOMAXPROCS(0)
 	defer runtime.GOMAXPROCS(old)
 	lost := 0
-	for i := 0; i < n && lost < 3; i++ {
-		if i%500 == 0 {
+	watchdog := time.NewTimer(20 * time.Second)
+	defer watchdog.Stop()
+	for i := 0; i < n+n2 && lost < 3; i++ {
+		if i%500 == 0 && i < n {
 			runtime.GOMAXPROCS([]int{1, 2, 4, 16}[rng.Intn(4)])
 		}
-		cbFail := rng.Chance(30)
+		if i == n {
+			runtime.GOMAXPROCS(2)
+		}
+		if i >= n && i%10000 == 0 {
+			runtime.GOMAXPROCS([]int{2, 2, 4, 16}[rng.Intn(4)])
+		}
+		cbFail := rng.Chance(30) && i < n
+		cons := 1 + rng.Intn(3)
+		if i >= n {
+			cons = 1 + rng.Intn(2)
+		}
 		ld := &fsloop.LoopData{
 			Filespace:  failingListFS{faultFS: faultFS{inner: base, st: &faultState{}}, failAt: "bad"},
-			Consumers:  1 + rng.Intn(3),
+			Consumers:  cons,
 			Producents: 1 + rng.Intn(3),
 			OnFile: func(fs filesystem.Filespace, p string) error {
 				if cbFail && strings.HasSuffix(p, "z") {
@@ -68,9 +85,16 @@ func c08ErrorStorm(o *Out, rng *RNG, tier string) {
 			done <- loop.Errors()
 		}()
 		var errs []error
+		if !watchdog.Stop() {
+			select {
+			case <-watchdog.C:
+			default:
+			}
+		}
+		watchdog.Reset(20 * time.Second)
 		select {
 		case errs = <-done:
-		case <-time.After(20 * time.Second):
+		case <-watchdog.C:
 			o.Fail("no-hang", "error storm: Wait() did not return", "C08-hang", map[string]interface{}{"probe": "error-storm", "i": i})
 			return
 		}
@@ -80,7 +104,11 @@ func c08ErrorStorm(o *Out, rng *RNG, tier string) {
 				seen = true
 			}
 		}
-		o.CountEval(fmt.Sprintf("storm|%v|%d", cbFail, i%7), true)
+		if i < n {
+			o.CountEval(fmt.Sprintf("storm|%v|%d", cbFail, i%7), true)
+		} else if i%20 == 0 {
+			o.CountEval(fmt.Sprintf("storm2|%d|%d", ld.Consumers, ld.Producents), true)
+		}
 		if !seen {
 			lost++
 			o.Fail("error-reported", fmt.Sprintf("error storm run %d: the injected %s error is not in Errors() when Wait() returns: %v",
@@ -89,4 +117,57 @@ func c08ErrorStorm(o *Out, rng *RNG, tier string) {
 		}
 	}
 	o.Stat("error_storm_done")
+}
+
+// c08Sweep: the position of a failure is not sampled.  On one fixed tree (files and directories
+// at four depths, a leading-dot name, an empty directory) the error is put on EVERY callback and
+// on EVERY listing (the start directory included), for producer limits 1 / 2 / 16 (nested
+// directories listed in line, by a spawned producer, or mixed) and consumer limits 1 / 3; then a
+// scope Kill/Error event is raised from inside EVERY callback, which then fails itself.
+func c08Sweep(o *Out, rng *RNG) {
+	tree := func() []*c08Node {
+		return []*c08Node{
+			{Name: "a"}, {Name: ".b"},
+			{Name: "d1", Dir: true, Ch: []*c08Node{{Name: "x"},
+				{Name: "d2", Dir: true, Ch: []*c08Node{{Name: "y"}, {Name: "d3", Dir: true, Ch: []*c08Node{{Name: "z"}}}}},
+				{Name: "e", Dir: true}}},
+			{Name: "f", Dir: true, Ch: []*c08Node{{Name: "g"}}},
+			{Name: "h"},
+		}
+	}
+	items := (&c08Run{Root: tree(), OnDir: true, OnFile: true}).expected()
+	lists := []string{"."}
+	for _, it := range items {
+		if strings.HasPrefix(it, "D:") {
+			lists = append(lists, c08Norm(it[2:]))
+		}
+	}
+	k := 0
+	run := func(p, c int, set func(r *c08Run)) {
+		r := &c08Run{Root: tree(), Kind: "sweep", OnDir: true, OnFile: true, P: p, C: c, Seed: rng.Next(), Salt: 1,
+			GMP: []int{1, 2, 4, 16}[k%4], DelayMode: k % 3, Index: -1}
+		k++
+		set(r)
+		r.check(o, true)
+	}
+	for _, p := range []int{1, 2, 16} {
+		for _, c := range []int{1, 3} {
+			for _, it := range items {
+				it := it
+				run(p, c, func(r *c08Run) { r.CbErr = it })
+			}
+			for _, l := range lists {
+				l := l
+				run(p, c, func(r *c08Run) { r.RdErr = l })
+			}
+			if p == 2 {
+				continue
+			}
+			for _, it := range items {
+				it := it
+				run(p, c, func(r *c08Run) { r.Scope, r.KillOn, r.KillEvt, r.CbErr = true, it, k%2, it })
+			}
+		}
+	}
+	o.Stat("sweep_done")
 }
